@@ -8,7 +8,7 @@
 (*     NONCONF <id> <group> {failed checks}                                *)
 (* and continues.                                                          *)
 (***************************************************************************)
-EXTENDS LouvainRules, Json, IOUtils
+EXTENDS LouvainRules, DijkstraRules, Json, IOUtils
 
 Rec == ndJsonDeserialize(IOEnv.TRACE)
 
@@ -71,6 +71,35 @@ CentralityChecks(g, a) ==
         c.ans.e = "" /\ (AllPositive(g, c.weighted) =>
                            CentralityMapIs(c.ans.v, g, Closeness(g, c.weighted, c.wf)))>>>>
 
+---------------------------------------------------------------------------
+(* Binding of DijkstraRules to the code (informational group dijkstra_mech):   *)
+(* given the traversal lists the hook reports, the deterministic search loop   *)
+(* of the specification predicts which nodes are reported and the exact order  *)
+(* of the returned paths of every single_source call.  The order is not part   *)
+(* of any property; a mismatch means that the specification no longer          *)
+(* describes the loop in dijkstra.rs, not that the library is wrong.            *)
+PosOf(g, name) == CHOOSE i \in 1..Len(g.nodes) : g.nodes[i].name = name
+CostAdj(adj, w) == [v \in DOMAIN adj |-> [k \in DOMAIN adj[v] |-> <<adj[v][k][1], IF w THEN adj[v][k][2] ELSE 1>>]]
+
+DijkstraCallOK(g, adj, w, s, c) ==
+  LET n == Len(g.nodes)
+      opts == [target |-> IF c.target = 0 THEN 0 ELSE PosOf(g, c.target), cutoff |-> c.cutoff,
+               first_only |-> c.first_only, with_paths |-> TRUE]
+      nameOf(i) == g.nodes[i].name
+  IN \A A \in {Answer(Run(n, adj, PosOf(g, s), opts), opts)} :
+       /\ {c.raw[i][1] : i \in DOMAIN c.raw} = {nameOf(v) : v \in DOMAIN A}
+       /\ \A i \in DOMAIN c.raw :
+             LET v == PosOf(g, c.raw[i][1]) IN
+             v \in DOMAIN A =>
+                c.raw[i][2] = [k \in DOMAIN A[v].paths |-> [j \in DOMAIN A[v].paths[k] |-> nameOf(A[v].paths[k][j])]]
+
+DijkstraMechChecks(g, a) ==
+  <<<<"search_loop", \A i \in DOMAIN a.ss :
+        \A adj \in {Strict(CostAdj(a.adj, a.ss[i].weighted))} :
+          \A k \in DOMAIN a.ss[i].calls :
+             LET c == a.ss[i].calls[k] IN
+             (c.has_raw /\ c.ans.e = "" /\ Len(a.adj) = Len(g.nodes)) => DijkstraCallOK(g, adj, a.ss[i].weighted, a.ss[i].s, c)>>>>
+
 Report(e, group, checks) ==
   LET f == FailedOf(checks) IN
   IF f = {} THEN TRUE ELSE PrintT("NONCONF " \o ToString(e.id) \o " " \o group \o " " \o ToString(f))
@@ -78,7 +107,8 @@ Report(e, group, checks) ==
 Consume(e) ==
   IF e.res = "Panic" THEN PrintT("NONCONF " \o ToString(e.id) \o " " \o e.op.suite \o " {\"panic\"}")
   ELSE LET g == ToGraph(e.post) IN
-       CASE e.op.suite = "paths" -> Report(e, "paths", PathsChecks(g, e.a))
+       CASE e.op.suite = "paths" -> /\ Report(e, "paths", PathsChecks(g, e.a))
+                                    /\ Report(e, "dijkstra_mech", DijkstraMechChecks(g, e.a))
          [] e.op.suite = "centrality" -> Report(e, "centrality", CentralityChecks(g, e.a))
          [] e.op.suite = "weighted" -> /\ Report(e, "algo", PathsChecks(g, e.a))
                                        /\ Report(e, "algo", CentralityChecks(g, e.a))
